@@ -138,3 +138,53 @@ def c17_break_only_after_transition(F, rep):
                     rec(e[1], depth + 1, guarded)
     rec(lp[3], 0, False)
     rep.floor("C17-R5", "breaks out of the arm loop examined", n, 2)
+
+
+# ---------------------------------------------------------------- C14-R5
+def c14_generator_source_per_environment(F, rep):
+    rep.rule("C14-R5", "comprehensions: a generator's source expression is evaluated once per binding environment (inside the loop over the environments, with that "
+                       "environment, unconditionally) - a later generator may depend on variables bound by an earlier one")
+    its = [it for it in F.syn("mech_interpreter.lib") if it["k"] == "fn" and it["name"] == "comprehension_environments"]
+    if not rep.check(len(its) == 1, "C14-R5", "anchor:comprehension_environments", "comprehension_environments not found"):
+        return
+    it = its[0]
+    n = 0
+    for m in find(it["body"], "match"):
+        for arm in m[2]:
+            if "ComprehensionQualifier::Generator" not in render_pat(arm[0]):
+                continue
+            loops = [lp for lp in find(arm[2], "for")]
+            env_loops = [lp for lp in loops if re.search(r"\benvs\b", render(lp[2]))]
+            if not rep.check(len(env_loops) >= 1, "C14-R5", "generator:loop-over-environments", "the Generator arm no longer loops over the binding environments"):
+                continue
+            lp = env_loops[0]
+            loopvar = [p[1] for p in find(lp[1], "pident")]
+
+            def uncond_calls(stmts, guarded, out):
+                for st in stmts:
+                    e = st[2] if st[0] == "let" else st[1] if st[0] == "expr" else None
+                    if e is None:
+                        continue
+                    if is_node(e) and e[0] in ("if", "match"):
+                        for c in find(e[1], "call"):
+                            out.append((c, guarded))
+                        sub = [e[2]] + ([e[3][1]] if e[0] == "if" and e[3] is not None and e[3][0] == "block" else []) if e[0] == "if" else [a[2][1] if is_node(a[2]) and a[2][0] == "block" else [["expr", a[2], False]] for a in e[2]]
+                        for s in sub:
+                            uncond_calls(s, True, out)
+                    elif is_node(e) and e[0] == "for":
+                        for c in find(e[2], "call"):
+                            out.append((c, guarded))
+                        uncond_calls(e[3], guarded, out)
+                    else:
+                        for c in find(e, "call"):
+                            out.append((c, guarded))
+            calls = []
+            uncond_calls(lp[3], False, calls)
+            src = [(c, g) for c, g in calls if last_seg(path_of(c[1]) or "") == "expression" and any(x[1] in loopvar for a in c[2] for x in find(a, "path"))]
+            n += 1
+            ok = any(not g for _, g in src)
+            rep.check(ok, "C14-R5", "generator:source-evaluated-per-environment",
+                      "comprehension_environments: the generator's source expression is %s: a generator whose source mentions a variable bound by an earlier generator gets the elements computed for another binding" % (
+                          "evaluated only under a condition inside the loop over the environments (cached across bindings)" if src else "not evaluated with the loop's environment at all"),
+                      "comprehension_environments (mech_interpreter.lib)", sample={"loop_variable": loopvar, "source_calls": len(src)})
+    rep.floor("C14-R5", "generator arms examined", n, 1)
